@@ -12,6 +12,7 @@ mod tlsfix;
 mod poolsim;
 mod rng;
 mod simrt;
+mod timersim;
 
 use std::path::PathBuf;
 use std::time::Instant;
@@ -121,6 +122,9 @@ fn check(args: &Args) -> i32 {
             parts.push(run_part(&iosim::IoSim, &cfg("iosim"), &known, &mut verdict));
         }
         "C02" | "C03" | "C04" | "C05" | "C06" | "C14" | "C15" | "C17" | "C19" => {
+            if property == "C19" {
+                parts.push(run_part(&timersim::TimerSim, &cfg("timersim"), &known, &mut verdict));
+            }
             let sc = poolsim::PoolSim { property: leak(property) };
             parts.push(run_part(&sc, &cfg("poolsim"), &known, &mut verdict));
         }
@@ -205,6 +209,7 @@ fn replay(args: &Args) -> i32 {
     match rf.engine.as_str() {
         "eyesim" => replay_with(&eyesim::EyeSim { property: "C10" }, &rf, args.machine),
         "iosim" => replay_with(&iosim::IoSim, &rf, args.machine),
+        "timersim" => replay_with(&timersim::TimerSim, &rf, args.machine),
         "poolsim" => replay_with(&poolsim::PoolSim { property: leak(&rf.property) }, &rf, args.machine),
         other => {
             eprintln!("HARNESS-ERROR: unknown engine {} in replay file", other);
